@@ -80,15 +80,23 @@ def chain_model(ns, nc, decl, cdecl, path=None, x0=None, k0=None, inter=True):
     return path
 
 
-def chain_solution(ns, nc, x0, k, times, outs):
-    """Closed form (matrix exponential), for complex x0 / k too. outs: list of ranks (0 = yq)."""
+def chain_solution(ns, nc, x0, k, times, outs, depot=None):
+    """Closed form (matrix exponential), for complex x0 / k too. outs: list of ranks (0 = yq).
+    depot = (initial amount, absorption rate, target rank): a first-order absorption compartment feeding state `target`
+    (what PKPDModel.set_administration(direct=False) adds; no dose is given)."""
     x0 = np.asarray(x0)
     k = np.asarray(k)
-    A = np.zeros((ns, ns), dtype=complex)
+    n = ns + (1 if depot is not None else 0)
+    A = np.zeros((n, n), dtype=complex)
     for r in range(1, ns + 1):
         A[r - 1, r - 1] = -k[cidx(r, nc) - 1]
         if r > 1:
             A[r - 1, r - 2] = k[cidx(r - 1, nc) - 1]
+    if depot is not None:
+        d0, ka, target = depot
+        A[ns, ns] = -ka
+        A[target - 1, ns] = ka
+        x0 = np.concatenate([x0.astype(complex), [d0]])
     res = np.zeros((len(outs), len(times)), dtype=complex)
     for j, t in enumerate(times):
         x = expm(A * t) @ x0.astype(complex)
@@ -108,4 +116,22 @@ def chain_reference(ns, nc, values, times, outs, free):
         v = values.astype(complex)
         v[pos - 1] += 1j * h
         sens[:, :, q] = (np.imag(chain_solution(ns, nc, v[:ns], v[ns:], times, outs)) / h).T
+    return out, sens
+
+
+def chain_reference_admin(ns, nc, values, times, outs, free, target):
+    """as chain_reference for the model after set_administration(direct=False) into state `target`.
+    values / free refer to the PUBLISHED vector <<dose.drug_amount, states by rank, dose.absorption_rate, constants by
+    rank>> (alphabetical: 'dose.' sorts before 'global.')."""
+    values = np.asarray(values, dtype=float)
+
+    def sol(v):
+        return chain_solution(ns, nc, v[1:1 + ns], v[2 + ns:], times, outs, depot=(v[0], v[1 + ns], target))
+    out = np.real(sol(values.astype(complex)))
+    h = 1e-30
+    sens = np.zeros((len(times), len(outs), len(free)))
+    for q, pos in enumerate(free):
+        v = values.astype(complex)
+        v[pos - 1] += 1j * h
+        sens[:, :, q] = (np.imag(sol(v)) / h).T
     return out, sens
